@@ -243,7 +243,13 @@ func readTlog(data []byte, drw *dialect.ReadWriter, n int, variant int) []M {
 	if err := rd.Initialize(); err != nil {
 		fatal("tlog reader: %v", err)
 	}
-	var out []M
+	// entries are looked at only after the whole file has been read: what Read returned must stay what it was
+	type rawEntry struct {
+		e   *tlog.Entry
+		err error
+		pan bool
+	}
+	var raws []rawEntry
 	for i := 0; i < n+3; i++ {
 		var e *tlog.Entry
 		var err error
@@ -256,14 +262,22 @@ func readTlog(data []byte, drw *dialect.ReadWriter, n int, variant int) []M {
 			e, err = rd.Read()
 			return false
 		}()
-		if pan {
+		raws = append(raws, rawEntry{e, err, pan})
+		if pan || err != nil {
+			break
+		}
+	}
+	var out []M
+	for _, rw := range raws {
+		if rw.pan {
 			out = append(out, M{"k": "panic"})
 			break
 		}
-		if err != nil {
-			out = append(out, M{"k": "err", "err": err.Error()})
+		if rw.err != nil {
+			out = append(out, M{"k": "err", "err": rw.err.Error()})
 			break
 		}
+		e := rw.e
 		us := e.Time.UnixMicro()
 		be := make(B, 8)
 		for k := 0; k < 8; k++ {
